@@ -105,15 +105,15 @@ theorem d_gControl : Der Γ Δ Z F gControl (PReal Z) :=
 
 theorem d_gLocalVar : Der Γ Δ Z F gLocalVar (PReal Z) := by
   unfold gLocalVar
-  refine Der.map (Q := PSeqN [PLeaf Z, PLeaf Z, PLeaf Z, PReal Z, PSeqN [PAny, POpt (PReal Z)]]) ?_ ?_
+  refine Der.map (Q := PSeqN [PLeaf Z, PLeafT Z, PLeaf Z, PReal Z, PSeqN [PAny, POpt (PReal Z)]]) ?_ ?_
   · der_seq
     · exact Der.tok _
-    · exact Der.tok _
+    · exact Der.tokT _ (by decide)
     · exact Der.tok _
     · exact r_type hc
     · exact Der.dep (Der.anyOpt good_leaf (Der.tok _)) (r_identifier hc)
-  · rintro lo hi v ⟨_, rfl, v0, _, m1, rfl, h0, v1, _, m2, rfl, h1, v2, _, m3, rfl, h2, v3, _, m4, rfl, h3, v4, _, m5, rfl, ⟨_, rfl, w0, _, n1, rfl, h4, w1, _, n2, rfl, h5, rfl, hend2⟩, rfl, hend⟩
-    have f0 := h0.facts; have f1 := h1.facts; have g1 := h1.e_le; have f2 := h2.facts; have f3 := h3.facts
+  · rintro lo hi v ⟨_, rfl, v0, _, m1, rfl, h0, v1, _, m2, rfl, ⟨h1, g1⟩, v2, _, m3, rfl, h2, v3, _, m4, rfl, h3, v4, _, m5, rfl, ⟨_, rfl, w0, _, n1, rfl, h4, w1, _, n2, rfl, h5, rfl, hend2⟩, rfl, hend⟩
+    have f0 := h0.facts; have f1 := h1.facts; have f2 := h2.facts; have f3 := h3.facts
     have e4 : m4.le n1 = true := h4
     rcases h5 with ⟨rfl, e5⟩ | h5
     · shape_simp
